@@ -1,4 +1,18 @@
-// Package vsys: syscall shim. Real fds pass through; virtual fds are simulated and scripted.
+// Package vsys: syscall shim injected into the scratch copy of nbio (never committed to /repo).
+//
+// Real descriptors pass straight through to package syscall, so the same binary also runs the
+// real-socket tiers. A *virtual* descriptor (an open /dev/null fd registered with NewVFD) plays a
+// scripted kernel:
+//   - write-like calls (write, writev, sendfile, sendto) consume one scripted answer each; accepted
+//     bytes are appended to the descriptor's wire log; an exhausted script means EAGAIN;
+//   - reads are served from a scripted receive queue (Rq); empty queue = EAGAIN, or 0 (EOF) once
+//     RdEOF is set, or RdErr if set;
+//   - epoll_ctl calls are recorded (ADD registers; MOD/DEL before ADD fail with ENOENT);
+//   - EpollWait on an epfd, once VirtualAll is set, returns batches injected with Inject and
+//     acknowledges when the poller comes back for more, so the harness drives the real event loop
+//     body deterministically, one batch at a time.
+//
+// Compiles under the language version of nbio's go.mod (go 1.16): no generics, no unsafe.Slice.
 package vsys
 
 import (
@@ -9,19 +23,21 @@ import (
 	"unsafe"
 )
 
-// AtomicHook, when set, is called after every rerouted atomic.AddInt32 with the delta and the result.
-var AtomicHook func(delta, result int32)
+// ---- atomic hooks (schedule forcing at the model's granularity)
+
+// AtomicHook, when set, is called after every rerouted atomic.AddInt32 with the delta and result.
+var AtomicHook func(p *int32, delta, result int32)
+
+// AtomicHook64 is the int64 twin (taskpool counter).
+var AtomicHook64 func(p *int64, delta, result int64)
 
 func AddInt32(p *int32, d int32) int32 {
 	v := atomic.AddInt32(p, d)
 	if h := AtomicHook; h != nil {
-		h(d, v)
+		h(p, d, v)
 	}
 	return v
 }
-
-// AtomicHook64 is the int64 twin (taskpool counter).
-var AtomicHook64 func(p *int64, delta, result int64)
 
 func AddInt64(p *int64, d int64) int64 {
 	v := atomic.AddInt64(p, d)
@@ -38,30 +54,59 @@ func bytesAt(p *byte, n int) []byte {
 	return (*[1 << 30]byte)(unsafe.Pointer(p))[:n:n]
 }
 
-// Reads counts read syscalls on virtual fds; Avail is the scripted receive queue size.
-var Reads int64
+// ---- virtual descriptors
 
+// Ans is one scripted kernel answer to a write-like call: accept N bytes (capped at the request),
+// or fail with Err.
 type Ans struct {
 	N   int
 	Err syscall.Errno // 0 = ok
 }
 
+// Dgram is one datagram in a virtual UDP socket's receive queue.
+type Dgram struct {
+	Data []byte
+	From syscall.Sockaddr
+}
+
 type VFD struct {
+	mu     sync.Mutex
 	Script []Ans    // answers for write-like syscalls, consumed in order
-	Wire   []byte   // bytes accepted
-	Log    []string // syscall log
-	Ctl    []string // epoll_ctl calls: A|M, r|w, ! if failed
-	Reg    bool
+	Wire   []byte   // bytes the kernel accepted, in order
+	Log    []string // syscall log: write, writev, sendfile, read, close, ...
+	Ctl    []string // epoll_ctl calls: A|M|D + r|w|rw (+ e for ET, o for ONESHOT), "!" suffix if it failed
+	Reg    bool     // registered with an epoll instance
+	Events uint32   // last registered interest set
 	Closed bool
+
+	Rq    []byte        // stream receive queue
+	RdEOF bool          // empty queue reads return 0
+	RdErr syscall.Errno // empty queue reads fail with this error (if non-zero)
+	Dq    []Dgram       // datagram receive queue (Recvfrom)
+	Sent  []Dgram       // datagrams sent with Sendto
+
+	Reads     int64 // number of read calls
+	ReadsIdle int64 // number of read calls that found nothing (EAGAIN)
+	Writes    int64 // number of write-like calls
+
+	ConnectErr syscall.Errno // answer of Connect on this fd (EINPROGRESS typical)
+	SoError    int           // SO_ERROR value for GetsockoptInt
 }
 
 var (
-	mu     sync.Mutex
-	vfds   = map[int]*VFD{}
-	inject = map[int]chan []syscall.EpollEvent{} // per epfd
-	idle   = map[int]chan struct{}{}
+	mu      sync.Mutex
+	vfds    = map[int]*VFD{}
+	inject  = map[int]chan []syscall.EpollEvent{} // per epfd
+	idle    = map[int]chan struct{}{}
+	pending = map[int]bool{}
+	// FileData lets Sendfile on a virtual fd read the source file with pread (real file fd).
 )
 
+// VirtualAll switches every EpollWait to the injected-batch regime (real events are still polled
+// with a 1 ms timeout so that eventfd wake-ups and real sockets keep working).
+var VirtualAll bool
+
+// NewVFD opens a virtual descriptor.
 func NewVFD() (int, *VFD) {
 	fd, err := syscall.Open("/dev/null", syscall.O_RDWR, 0)
 	if err != nil {
@@ -74,32 +119,33 @@ func NewVFD() (int, *VFD) {
 	return fd, v
 }
 
+// Forget drops the registration of fd (after the harness is done with it).
+func Forget(fd int) { mu.Lock(); delete(vfds, fd); mu.Unlock() }
+
 func get(fd int) *VFD { mu.Lock(); defer mu.Unlock(); return vfds[fd] }
 
-var VirtualAll bool
-var pending = map[int]bool{}
+// Get returns the virtual descriptor behind fd, or nil.
+func Get(fd int) *VFD { return get(fd) }
 
-func chans(epfd int) (chan []syscall.EpollEvent, chan struct{}) {
-	mu.Lock()
-	defer mu.Unlock()
-	if !VirtualAll {
-		return nil, nil
-	}
-	if inject[epfd] == nil {
-		inject[epfd] = make(chan []syscall.EpollEvent)
-		idle[epfd] = make(chan struct{})
-	}
-	return inject[epfd], idle[epfd]
-}
+// Lock / Unlock let the harness edit a VFD's scripts while pollers run.
+func (v *VFD) Lock()   { v.mu.Lock() }
+func (v *VFD) Unlock() { v.mu.Unlock() }
 
-// Inject delivers events to the poller owning epfd and waits until it has processed them.
-func Inject(epfd int, evs []syscall.EpollEvent) {
-	ch, id := chans(epfd)
-	ch <- evs
-	<-id
+// SetScript replaces the write answers.
+func (v *VFD) SetScript(a []Ans) { v.mu.Lock(); v.Script = a; v.mu.Unlock() }
+
+// Push appends bytes to the stream receive queue.
+func (v *VFD) Push(b []byte) { v.mu.Lock(); v.Rq = append(v.Rq, b...); v.mu.Unlock() }
+
+// Snapshot returns copies of the observable logs.
+func (v *VFD) Snapshot() (wire []byte, ctl []string, log []string, closed bool, rq int) {
+	v.mu.Lock()
+	defer v.mu.Unlock()
+	return append([]byte(nil), v.Wire...), append([]string(nil), v.Ctl...), append([]string(nil), v.Log...), v.Closed, len(v.Rq)
 }
 
 func (v *VFD) answer(want int) (int, error) {
+	v.Writes++
 	if len(v.Script) == 0 {
 		return -1, syscall.EAGAIN // exhausted script: kernel is full from now on
 	}
@@ -116,6 +162,8 @@ func (v *VFD) answer(want int) (int, error) {
 
 func Write(fd int, b []byte) (int, error) {
 	if v := get(fd); v != nil {
+		v.mu.Lock()
+		defer v.mu.Unlock()
 		n, err := v.answer(len(b))
 		if n > 0 {
 			v.Wire = append(v.Wire, b[:n]...)
@@ -128,45 +176,203 @@ func Write(fd int, b []byte) (int, error) {
 
 func Read(fd int, b []byte) (int, error) {
 	if v := get(fd); v != nil {
-		atomic.AddInt64(&Reads, 1)
-		return -1, syscall.EAGAIN
+		v.mu.Lock()
+		defer v.mu.Unlock()
+		atomic.AddInt64(&v.Reads, 1)
+		v.Log = append(v.Log, "read")
+		if len(v.Rq) == 0 {
+			if v.RdErr != 0 {
+				return -1, v.RdErr
+			}
+			if v.RdEOF {
+				return 0, nil
+			}
+			atomic.AddInt64(&v.ReadsIdle, 1)
+			return -1, syscall.EAGAIN
+		}
+		n := copy(b, v.Rq)
+		v.Rq = v.Rq[n:]
+		return n, nil
 	}
 	return syscall.Read(fd, b)
 }
-func Recvfrom(fd int, b []byte, flags int) (int, syscall.Sockaddr, error) { return syscall.Recvfrom(fd, b, flags) }
-func Sendto(fd int, b []byte, flags int, to syscall.Sockaddr) error        { return syscall.Sendto(fd, b, flags, to) }
+
+func Recvfrom(fd int, b []byte, flags int) (int, syscall.Sockaddr, error) {
+	if v := get(fd); v != nil {
+		v.mu.Lock()
+		defer v.mu.Unlock()
+		atomic.AddInt64(&v.Reads, 1)
+		v.Log = append(v.Log, "recvfrom")
+		if len(v.Dq) == 0 {
+			if v.RdErr != 0 {
+				return -1, nil, v.RdErr
+			}
+			atomic.AddInt64(&v.ReadsIdle, 1)
+			return -1, nil, syscall.EAGAIN
+		}
+		d := v.Dq[0]
+		v.Dq = v.Dq[1:]
+		n := copy(b, d.Data) // excess bytes of a datagram are discarded, as the kernel does
+		return n, d.From, nil
+	}
+	return syscall.Recvfrom(fd, b, flags)
+}
+
+func Sendto(fd int, b []byte, flags int, to syscall.Sockaddr) error {
+	if v := get(fd); v != nil {
+		v.mu.Lock()
+		defer v.mu.Unlock()
+		_, err := v.answer(len(b))
+		v.Log = append(v.Log, "sendto")
+		if err != nil {
+			return err
+		}
+		v.Sent = append(v.Sent, Dgram{Data: append([]byte(nil), b...), From: to})
+		return nil
+	}
+	return syscall.Sendto(fd, b, flags, to)
+}
+
+// Sendfile on a virtual out-fd: the scripted answer says how many bytes the kernel takes; the bytes
+// are read from the (real) source descriptor with pread at *off and appended to the wire log.
 func Sendfile(out, in int, off *int64, count int) (int, error) {
+	if v := get(out); v != nil {
+		v.mu.Lock()
+		defer v.mu.Unlock()
+		v.Log = append(v.Log, "sendfile")
+		n, err := v.answer(count)
+		if err != nil {
+			return -1, err
+		}
+		buf := make([]byte, n)
+		got := 0
+		for got < n {
+			k, e := syscall.Pread(in, buf[got:], *off+int64(got))
+			if k <= 0 || e != nil {
+				break
+			}
+			got += k
+		}
+		v.Wire = append(v.Wire, buf[:got]...)
+		*off += int64(got)
+		return got, nil
+	}
 	return syscall.Sendfile(out, in, off, count)
 }
+
 func Close(fd int) error {
 	if v := get(fd); v != nil {
+		v.mu.Lock()
 		v.Closed = true
 		v.Log = append(v.Log, "close")
+		v.mu.Unlock()
 	}
 	return syscall.Close(fd)
 }
-func Dup(fd int) (int, error)                   { return syscall.Dup(fd) }
-func Connect(fd int, sa syscall.Sockaddr) error { return syscall.Connect(fd, sa) }
+
+func Dup(fd int) (int, error) { return syscall.Dup(fd) }
+
+func Connect(fd int, sa syscall.Sockaddr) error {
+	if v := get(fd); v != nil {
+		v.mu.Lock()
+		defer v.mu.Unlock()
+		v.Log = append(v.Log, "connect")
+		if v.ConnectErr != 0 {
+			return v.ConnectErr
+		}
+		return nil
+	}
+	return syscall.Connect(fd, sa)
+}
+
+func evString(ev uint32) string {
+	s := ""
+	if ev&syscall.EPOLLIN != 0 {
+		s += "r"
+	}
+	if ev&syscall.EPOLLOUT != 0 {
+		s += "w"
+	}
+	if ev&(1<<31) != 0 { // EPOLLET
+		s += "e"
+	}
+	if ev&syscall.EPOLLONESHOT != 0 {
+		s += "o"
+	}
+	return s
+}
 
 func EpollCtl(epfd, op, fd int, ev *syscall.EpollEvent) error {
 	if v := get(fd); v != nil {
-		rw := "r"
-		if ev.Events&syscall.EPOLLOUT != 0 {
-			rw = "w"
-		}
-		if op == syscall.EPOLL_CTL_ADD {
+		v.mu.Lock()
+		defer v.mu.Unlock()
+		switch op {
+		case syscall.EPOLL_CTL_ADD:
+			if v.Reg {
+				v.Ctl = append(v.Ctl, "A"+evString(ev.Events)+"!")
+				return syscall.EEXIST
+			}
 			v.Reg = true
-			v.Ctl = append(v.Ctl, "A"+rw)
+			v.Events = ev.Events
+			v.Ctl = append(v.Ctl, "A"+evString(ev.Events))
+			return nil
+		case syscall.EPOLL_CTL_MOD:
+			if !v.Reg {
+				v.Ctl = append(v.Ctl, "M"+evString(ev.Events)+"!")
+				return syscall.ENOENT
+			}
+			v.Events = ev.Events
+			v.Ctl = append(v.Ctl, "M"+evString(ev.Events))
+			return nil
+		default:
+			if !v.Reg {
+				v.Ctl = append(v.Ctl, "D!")
+				return syscall.ENOENT
+			}
+			v.Reg = false
+			v.Ctl = append(v.Ctl, "D")
 			return nil
 		}
-		if !v.Reg {
-			v.Ctl = append(v.Ctl, "M"+rw+"!")
-			return syscall.ENOENT
-		}
-		v.Ctl = append(v.Ctl, "M"+rw)
-		return nil
 	}
 	return syscall.EpollCtl(epfd, op, fd, ev)
+}
+
+func chans(epfd int) (chan []syscall.EpollEvent, chan struct{}) {
+	mu.Lock()
+	defer mu.Unlock()
+	if !VirtualAll {
+		return nil, nil
+	}
+	if inject[epfd] == nil {
+		inject[epfd] = make(chan []syscall.EpollEvent)
+		idle[epfd] = make(chan struct{})
+	}
+	return inject[epfd], idle[epfd]
+}
+
+// Inject delivers events to the poller owning epfd and returns once the poller has processed the
+// whole batch and re-entered EpollWait.
+func Inject(epfd int, evs []syscall.EpollEvent) {
+	ch, id := chans(epfd)
+	ch <- evs
+	<-id
+}
+
+// InjectTimeout is Inject with a bound on the wait for the acknowledgement; false = the poller did
+// not come back in time (it is stuck in the batch: a hang of the event loop body).
+func InjectTimeout(epfd int, evs []syscall.EpollEvent, d time.Duration) bool {
+	ch, id := chans(epfd)
+	select {
+	case ch <- evs:
+	case <-time.After(d):
+		return false
+	}
+	select {
+	case <-id:
+		return true
+	case <-time.After(d):
+		return false
+	}
 }
 
 func EpollWait(epfd int, events []syscall.EpollEvent, msec int) (int, error) {
@@ -195,19 +401,22 @@ func EpollWait(epfd int, events []syscall.EpollEvent, msec int) (int, error) {
 		if n > 0 || (err != nil && err != syscall.EINTR) {
 			return n, err
 		}
-		time.Sleep(200 * time.Microsecond)
+		time.Sleep(100 * time.Microsecond)
 	}
 }
 
 func Syscall(trap, a1, a2, a3 uintptr) (uintptr, uintptr, syscall.Errno) {
 	if trap == syscall.SYS_WRITEV {
 		if v := get(int(a1)); v != nil {
+			v.mu.Lock()
+			defer v.mu.Unlock()
 			iovs := (*[1 << 20]syscall.Iovec)(unsafe.Pointer(a2))[:int(a3):int(a3)]
 			total := 0
 			for _, io := range iovs {
 				total += int(io.Len)
 			}
 			n, err := v.answer(total)
+			v.Log = append(v.Log, "writev")
 			if err != nil {
 				return ^uintptr(0), 0, err.(syscall.Errno)
 			}
@@ -223,7 +432,6 @@ func Syscall(trap, a1, a2, a3 uintptr) (uintptr, uintptr, syscall.Errno) {
 				v.Wire = append(v.Wire, bytesAt(io.Base, k)...)
 				rem -= k
 			}
-			v.Log = append(v.Log, "writev")
 			return uintptr(n), 0, 0
 		}
 	}
